@@ -950,6 +950,32 @@ def explore(ctx, m, tags, e, ename, info, pending, deep=True):
         except Exception as ex:
             case.viol("view union raised " + exc_kind(ex), {"what": "raise-union"}, err=repr(ex))
 
+    # ---- complement on RESTRICTED bases (boundary facet basis, a cell subset): still the complement in 0..N-1
+    try:
+        from skfem import FacetBasis, CellBasis
+        Sx = sorted(set(rand_subset(rng, T.boundary, allow_empty=False))) if T.boundary else []
+        if Sx:
+            Dx = set(T.facet_dofs(Sx))
+            wantc = sorted(set(range(N)) - Dx)
+            rbases = [("cell subset", lambda: CellBasis(m, e, elements=np.array(sorted(rng.sample(range(nt), max(1, nt // 2))),
+                                                                                 dtype=np.int64), intorder=3))]
+            if m.brefdom is not None or hasattr(m, "bndelem") and m.bndelem is not None:
+                rbases.append(("boundary facet basis", lambda: FacetBasis(m, e, intorder=3)))
+            for lab, mkb in rbases:
+                try:
+                    reset_caches(e)
+                    rb = mkb()
+                except Exception:
+                    continue
+                gotc = aslist(rb.complement_dofs(rb.get_dofs(facets=np.array(Sx, dtype=np.int64))))
+                ctx.count("complement-on-restricted-basis:" + lab.split()[0])
+                if gotc != wantc:
+                    case.viol("complement_dofs on a " + lab + " is not the complement in 0..N-1",
+                              {"what": "complement", "basis": lab.split()[0]}, facets=Sx,
+                              missing=sorted(set(wantc) - set(gotc))[:20], spurious=sorted(set(gotc) - set(wantc))[:20])
+            reset_caches(e)
+    except Exception as ex:
+        case.viol("complement on a restricted basis raised " + exc_kind(ex), {"what": "raise-complement"}, err=repr(ex))
     # ---- a tag name defined AGAIN (with_boundaries / with_subdomains on a mesh that already has the name):
     # the name designates the new set, in every selector form
     if bnames and rng.random() < 0.5:
